@@ -98,8 +98,9 @@ var shapes = func() []shape {
 var bShapes = []string{"i1", "nil", "s", "l", "m", "im3", "ls", "st"}
 
 // first-argument shapes of the quick tier (thorough: all): one representative per kind
-var aQuick = []string{"nil", "true", "i0", "i1", "im3", "u8", "imax", "f", "nan", "s0", "s", "snum", "sbad", "sfmt", "sre", "named", "bytes",
-	"l0", "l", "ll", "ls", "li", "arr", "m0", "m", "msi", "mis", "mii", "mst", "st", "pst", "npst", "emb", "meth", "pi", "nm", "ns", "t", "fn", "fn1", "ch"}
+var aQuick = []string{"nil", "true", "i1", "im3", "u8", "imax", "f", "nan", "s0", "s", "sbad", "sfmt", "named",
+	"l0", "l", "ls", "arr", "m", "msi", "mis", "mii", "st", "npst", "ns", "fn"}
+var bQuick = []string{"i1", "nil", "s", "l"}
 
 var shapeByName = func() map[string]*shape {
 	m := map[string]*shape{}
@@ -223,6 +224,9 @@ func runGrid(t *vlib.T) {
 				bs := bShapes[:1]
 				if c.b {
 					bs = bShapes
+					if !t.Thorough() {
+						bs = bQuick
+					}
 				}
 				for _, bn := range bs {
 					if t.Stopped() {
@@ -243,7 +247,7 @@ func runGrid(t *vlib.T) {
 						ctx := map[string]interface{}{"v": v.v, "a": a.v, "b": shapeByName[bn].v}
 						o := runSource("g", c.src, []map[string]interface{}{ctx}, !v.scalar, func() interface{} {
 							return map[string]interface{}{"template": c.src, "v": fmt.Sprintf("%s = %#v", v.name, v.v), "a": fmt.Sprintf("%s = %#v", a.name, a.v), "b": bn}
-						})
+						}, func(pan string) string { return knownRenderPanic(c, v, a, shapeByName[bn], pan) })
 						if o.Counters["renders"] == 0 {
 							o.Nontrivial = false
 						}
